@@ -15,7 +15,12 @@ RULE = ("random command trees (vp/gen_cmd.py: depth <= 2(3), every setting toggl
         "prefixes, subcommand names, -1e, non-UTF-8 bytes) plus an ignore_errors stream.  A case is non-trivial when "
         "the configuration is accepted by the library's own checks (not INVALID) and argv has at least one token "
         "after the program name; distinct = distinct case text.  Stream errctx: the same generators, mutation-heavy "
-        "(p_mutate 0.8) so that most lines end in an error; non-trivial = the outcome is an error.")
+        "(p_mutate 0.8) so that most lines end in an error; non-trivial = the outcome is an error.  Stream "
+        "parse-flagsub-class (round 4): definitions of the class of C01_no_panic_flag_subs that have short flag-subcommands "
+        "(python mirror of the class, a subset) x lines aimed at the resume logic: names down to a level with a short "
+        "flag-subcommand, a cluster -<flags>*S<letters incl. the child's shorts, S again, =, digits, unknown letters, non-UTF-8 "
+        "bytes>, then further clusters / names / boundary tokens; non-trivial = a cluster carries a flag-subcommand letter "
+        "that is not its last byte (keep_state); a panic on this stream is a violation even with the message of the recorded finding.")
 TRUSTED = [
     "Coq 8.16.1 kernel (coqc); no native_compute; theorems C01_* are 'Closed under the global context'",
     "extraction: ExtrOcamlBasic only, no Extract Constant; OCaml driver ocaml/parse_driver.ml + common_parse/{spec,show}.ml",
@@ -36,12 +41,16 @@ ASSUMPTIONS = [
     "agreement with a debug build's Command::build() is part of the correspondence (INVALID must coincide)",
     "no multicall, no Command::defer, built-in value parsers only",
     "stack/heap exhaustion and wall-clock are outside the theorem; the harness run has a per-shard timeout",
-    "C01_no_panic is proved for commands without short flag-subcommands (class no_short_flag_sub); the resume "
-    "counter of nested short flag-subcommands is the recorded finding C01-flag-subcmd-skip",
+    "C01_no_panic is proved for commands without short flag-subcommands (class plain) and, round 4, "
+    "C01_no_panic_flag_subs for the boolean class flag_sub_class (short flag-subcommands allowed; every level a "
+    "cluster can re-enter has no short flag-subcommands of its own and a first positional without negative-number / "
+    "non-last hyphen values); outside that class the resume counter of short flag-subcommands is the recorded "
+    "finding C01-flag-subcmd-skip",
 ]
 TECHNIQUE = ("Coq proof (state invariant of the parse loop: every unwrap/expect/unreachable!/debug_assert site of "
              "parser.rs/arg_matcher.rs on the path is dead for commands accepted by the validity gate; fuel = tree depth "
-             "suffices; ignore_errors swallows every stderr-class error; panic-site table regenerated from the Rust source "
+             "suffices -- for definitions without short flag-subcommands and, with the invariant generalised over "
+             "flag_subcmd_at/flag_subcmd_skip, for the boolean class flag_sub_class with them; ignore_errors swallows every stderr-class error; panic-site table regenerated from the Rust source "
              "and proved equal to the model's, in both directions; model of the error value, its constructors and "
              "RichFormatter with 'rendering never panics and gets its context') + extracted-model/implementation "
              "correspondence (outcome class; for errors also context kinds, value variants, message form)")
@@ -66,9 +75,12 @@ LEVEL_NOTE = ("Trusted: Coq kernel, extraction, OCaml driver, Rust harness, gene
               "flag-subcommands whose intermediate flag consumes a number of indices other than one make the "
               "flag_subcmd_skip debug assertion fail (debug builds panic, release builds reject the line); round 2 found two "
               "more mechanisms reaching the same assertion with one-index flags only (stale flag_subcmd_at across clusters; "
-              "skip left unconsumed when the re-read cluster is taken as a hyphen value): C01_no_panic_*_refuted. The main "
-              "no-panic theorem therefore stays stated for definitions without short flag-subcommands. Not compared: error text, "
-              "suggestion context kinds.")
+              "skip left unconsumed when the re-read cluster is taken as a hyphen value): C01_no_panic_*_refuted. Round 4 "
+              "proves the no-panic theorem for the class in which neither mechanism can occur (flag_sub_class: short "
+              "flag-subcommands one level deep below any chain of ordinary subcommands, re-entered level without a "
+              "negative-number / non-last hyphen-value first positional); definitions with short flag-subcommands outside that "
+              "class are covered by the correspondence run and the direct oracle only. Not compared: error text, suggestion "
+              "context kinds.")
 
 KNOWN_SKIP_MSG = "tracking of `flag_subcmd_skip` is off"
 
@@ -221,6 +233,102 @@ def boundary_cases(rng, n, prof_kw=None):
     return out[:n]
 
 
+# ---------------------------------------------------------------- stream parse-flagsub-class (round 4)
+def _has_short_flag(s):
+    return bool(s.get("short_flag") or s.get("short_flag_aliases"))
+
+
+def in_flag_sub_class(c):
+    """python mirror (conservative: a subset) of the boolean class `flag_sub_class` of C01_no_panic_flag_subs: every
+    subcommand that has a short flag has no child with a short flag, and none of its positionals allows hyphen values
+    or negative numbers.  (The generator never sets the command-level AllowHyphenValues / AllowNegativeNumbers.)"""
+    for s in c["subs"]:
+        if _has_short_flag(s):
+            if any(_has_short_flag(t) for t in s["subs"]):
+                return False
+            if any(not gen_cmd.is_opt(a) and ({"hyphen", "negnum"} & set(a["flags"])) for a in s["args"]):
+                return False
+        if not in_flag_sub_class(s):
+            return False
+    return True
+
+
+def uses_short_flag_sub(c):
+    return any(_has_short_flag(s) or uses_short_flag_sub(s) for s in c["subs"])
+
+
+def flagsub_cases(rng, n):
+    """definitions of the class that HAVE short flag-subcommands x argv aimed at the resume logic: a path of subcommand names
+    to a level with a short flag-subcommand, then one cluster `-<flags of that level>*<S><letters>` (letters: shorts of the
+    child and of the parent, the subcommand letter again, `=`, a digit, an unknown letter, a non-UTF-8 byte), then 0-2 more
+    tokens (another cluster, names of the child, boundary tokens); plus the generic rendered/mutated lines."""
+    prof = gen_cmd.Profile(flag_subs=0.7, hyphen=0.15, depth=3, settings=0.15, infer=0.2, require_equals=0.2, ignore_errors=0.15,
+                           invalid=0.0)
+    out = []
+    guard = 0
+    while len(out) < n and guard < 200 * n + 1000:
+        guard += 1
+        c = gen_cmd.gen_cmd(rng, prof)
+        if not (in_flag_sub_class(c) and uses_short_flag_sub(c)):
+            continue
+        sites = []          # (names on the way, parent, child)
+
+        def walk(cc, path):
+            for s in cc["subs"]:
+                if s.get("short_flag"):
+                    sites.append((path, cc, s))
+                walk(s, path + [s["name"]])
+        walk(c, [])
+        for _ in range(6):
+            path, par, ch = rng.choice(sites)
+            pflags = [a["short"] for a in par["args"] if a.get("short")]
+            cshorts = [a["short"] for a in ch["args"] if a.get("short")]
+            before = "".join(rng.choice(pflags) for _ in range(rng.choice([0, 0, 0, 1, 1, 2]))) if pflags else ""
+            pool = cshorts * 3 + pflags + [ch["short_flag"], "=", "1", "y", "h", "V"]
+            after = b"".join((rng.choice(pool).encode() if rng.random() < 0.93 else rng.choice([b"\xff", b"\xc3\xa9", b"\xc3"]))
+                             for _ in range(rng.choice([0, 1, 1, 1, 2, 2, 3, 4])))
+            cluster = b"-" + before.encode() + ch["short_flag"].encode() + after
+            tail = []
+            for _ in range(rng.choice([0, 0, 1, 1, 2, 3])):
+                r = rng.random()
+                if r < 0.3 and cshorts:
+                    tail.append(b"-" + "".join(rng.choice(cshorts + [ch["short_flag"]]) for _ in range(rng.choice([1, 1, 2, 3]))).encode())
+                elif r < 0.45:
+                    tail.append(cluster)
+                elif r < 0.6 and ch["subs"]:
+                    tail.append(rng.choice(ch["subs"])["name"])
+                elif r < 0.8:
+                    tail.append(rng.choice(gen_cmd.VALUES))
+                else:
+                    tail.append(rng.choice(gen_cmd.BOUNDARY))
+            toks = list(path) + [cluster] + tail
+            if rng.random() < 0.25:
+                toks = gen_cmd.mutate(rng, toks)
+            out.append(gen_cmd.case_sx(c, toks if "no_binary_name" in c["settings"] else [b"prog"] + toks))
+        for _ in range(2):
+            out.append(gen_cmd.case_sx(c, gen_cmd.gen_argv(rng, c, p_mutate=0.5, safe_p=0.4)))
+    return out[:n]
+
+
+def nontrivial_flagsub(case, impl):
+    """the line contains a cluster with a short flag-subcommand letter followed by something (keep_state is exercised)"""
+    if not nontrivial(case, impl):
+        return False
+    cmd, argv = decode_case(case)
+    letters = set()
+
+    def walk(cc):
+        for s in cc["subs"]:
+            if s.get("short_flag"):
+                letters.add(s["short_flag"].encode() if isinstance(s["short_flag"], str) else s["short_flag"])
+            walk(s)
+    walk(cmd)
+    for t in argv[1:]:
+        if len(t) >= 3 and t[:1] == b"-" and t[1:2] != b"-" and any(l in t[1:-1] for l in letters):
+            return True
+    return False
+
+
 def describe(cases, tag):
     feats = collections.Counter()
     lens = collections.Counter()
@@ -271,11 +379,18 @@ def streams(tier, rng):
                                           "external": 0.2}, p_mutate=0.8, safe_p=0.2, mode="errctx"))
     errctx = Stream("errctx", errc, oracle=oracle_errctx, area="errctx", project=project_errctx,
                     nontrivial=nontrivial_errctx, describe=describe(errc, "errctx"))
+    # round 4: the class of C01_no_panic_flag_subs against the real crate; a panic here is a violation even with the
+    # message of the recorded finding (classify_known does not accept it on this stream)
+    fsc = flagsub_cases(rng, 20000 if big else 2000)
+    flagsub = Stream("parse-flagsub-class", fsc, oracle=oracle, area="parse", project=project,
+                     nontrivial=nontrivial_flagsub, describe=describe(fsc, "parse-flagsub-class"))
     return [mk("parse-random", rand), mk("parse-adversarial", adversarial), mk("parse-boundary", bound),
-            mk("parse-ignore-errors", ign), errctx]
+            mk("parse-ignore-errors", ign), flagsub, errctx]
 
 
 def classify_known(stream, case, impl, failure):
+    if stream == "parse-flagsub-class":
+        return None       # definitions of the class of C01_no_panic_flag_subs: the recorded finding cannot occur there
     if impl and impl.startswith("PANIC") and KNOWN_SKIP_MSG in impl:
         return "C01-flag-subcmd-skip"
     return None
